@@ -277,6 +277,11 @@ func runC05(t *mon.T, raw json.RawMessage) {
 			return // nothing is written without a Put (C20)
 		}
 		p := filepath.Join(dir, "def.car")
+		if r.Intn(2) == 0 {
+			// the path already holds a (larger) file, e.g. the output of a previous run
+			mustWrite(p, gen.Bytes(r, 5000+r.Intn(60000)))
+			t.Cover("deferred-over-existing-larger-file")
+		}
 		w := deferred.NewDeferredCarWriterForPath(p, roots, cfg.Opts()...)
 		for _, b := range content.Blocks {
 			if err := w.Put(bg, string(b.Cid), b.Data); err != nil {
@@ -417,6 +422,6 @@ func init() {
 		Gen:         genC05,
 		Run:         runC05,
 		MinCover: map[string]int{"api:blockstore": 20, "api:storage-writable": 20, "api:storage-rw": 20, "api:deferred": 20, "api:cli": 10, "cli:get-dag": 10, "cli:filter": 10,
-			"v2-files-checked": 200, "verifycar-run": 50, "sessions-without-stored-blocks": 5, "big-sessions": 4},
+			"v2-files-checked": 200, "verifycar-run": 50, "sessions-without-stored-blocks": 5, "big-sessions": 4, "deferred-over-existing-larger-file": 20},
 	})
 }
